@@ -8,7 +8,7 @@ from props.c01 import themed_case
 
 class P(EngProp):
     id = "C08"
-    rule = ("a record set in time order (timestamps unique, or with ties for the shape-only cases) and a query whose stages add (json/logfmt/label_format), remove (drop/keep) or "
+    rule = ("a record set in time order (timestamps unique, a third of the cases with exact duplicate records: same timestamp, line and attributes) and a query whose stages add (json/logfmt/label_format), remove (drop/keep) or "
             "rewrite labels, incl. label values containing quote, backslash, comma, equals sign, newline and values that imitate the rendering of other labels; evaluated with "
             "limits {-5, -1, 0, 1, 2, N-1, N, N+1, 100} on the real engine. Checked on the observed results: no two streams share a label set, every stream non-empty and sorted, "
             "labels sorted; the limit-L result is the first min(L,N) entries in time order of the unlimited one; non-positive limits return all; total entries = N; and each "
@@ -28,6 +28,13 @@ class P(EngProp):
             # time order, unique timestamps
             for k, r in enumerate(recs):
                 r["ts"] = 1000 + k * 3
+            # exact duplicates (same timestamp, line, attributes): every matching record is an entry of its own
+            if i % 3 == 1 and len(recs) >= 2:
+                import copy
+                for _ in range(rng.randint(1, 2)):
+                    j = rng.randrange(1, len(recs))
+                    recs[j] = copy.deepcopy(recs[j - 1])
+                theme += "+dup"
             q = g.query_text(sel, pipe, "spaced")
             qc = g.query_coq(sel, pipe)
             N = len(recs)
